@@ -243,6 +243,21 @@ class Composite(LexicalParent[Node], HasCreator, Node, ABC):
         # would never match again. What the outputs belong to is the state the run left.
         self._cached_internals = self._internal_cache_key()
 
+    def _on_cache_hit(self) -> None:
+        super()._on_cache_hit()
+        self._refetch_child_inputs()
+
+    def _refetch_child_inputs(self) -> None:
+        """
+        A run would have made every child fetch its connected input. When we answer
+        from the cache nobody runs, so do at least that: a value assigned by hand to a
+        connected child input must not outlive the run it would have been overwritten in.
+        """
+        for child in self:
+            child.inputs.fetch()
+            if isinstance(child, Composite):
+                child._refetch_child_inputs()
+
     @property
     def cache_hit(self):
         try:
